@@ -24,7 +24,9 @@ RULE = ("Generated: every construction algorithm with drawn arguments — Random
         "(set-based, vlib/defs.py): each root covers all variables; every partition's children are disjoint, "
         "non-empty and cover it; each partition has one parent; the structured-decomposability flag equals 'all "
         "partitions of one scope split it into the same set of sub-scopes'; dump -> load preserves the multiset of "
-        "(region scope, child-scope sets), roots and flags; the built circuit is smooth and decomposable by the "
+        "(region scope, child-scope sets), roots and flags; RegionGraph.is_compatible is symmetric (against a random "
+        "binary tree over the same variables) and never reports a graph compatible with itself when some scope is "
+        "split in two ways; the built circuit is smooth and decomposable by the "
         "independent definitions, has scope == rg.scope, is structured-decomposable whenever the region graph is, "
         "has one output per root with num_classes units; build_circuit must not raise for documented argument "
         "combinations. Non-trivial = a region with >= 2 partitions, or explicit factories, or n >= 5; distinct = "
@@ -191,6 +193,22 @@ def run_case(case):
     if sd_flag != sd_def:
         raise Violation("rg-sd-flag", f"{alg}:sd-flag={sd_flag}-definition={sd_def}", "")
     classes.append(f"rg-sd:{sd_def}")
+    # region-graph level compatibility (C08 anchors): symmetric, and never reported for a graph with itself
+    # unless every scope is split in one way only
+    from cirkit.templates import region_graph as RGm
+
+    with sut("rg-is-compatible"):
+        self_c = bool(rg.is_compatible(rg))
+    if self_c and not sd_def:
+        raise Violation("rg-compatible-soundness", f"{alg}:self-compatible-but-two-splits-of-one-scope", "")
+    if n <= 12:
+        other = RGm.RandomBinaryTree(n, num_repetitions=1, seed=case.get("seed", case.get("dseed", 7)) + 1) \
+            if n > 1 else RGm.FullyFactorized(n)
+        with sut("rg-is-compatible"):
+            ab, ba = bool(rg.is_compatible(other)), bool(other.is_compatible(rg))
+        if ab != ba:
+            raise Violation("rg-compatible-symmetric", f"{alg}:is_compatible-asymmetric", f"ab={ab} ba={ba}")
+        classes.append(f"rg-compatible-with-random-tree:{ab}")
     # ---- dump / load round trip
     fd, path = tempfile.mkstemp(suffix=".json", prefix="c16_")
     os.close(fd)
